@@ -191,9 +191,12 @@ func (g *ExecutionGraph) setupRetry() error {
 	for len(frontier) > 0 {
 		var next []int
 		for _, u := range frontier {
+			// a step recorded as not started is reset too: an interrupted run can
+			// leave it with the retry count of an attempt that was handed back
 			if retry[u] || dict[u] == NodeStatusError ||
 				dict[u] == NodeStatusCancel ||
-				dict[u] == NodeStatusRunning {
+				dict[u] == NodeStatusRunning ||
+				dict[u] == NodeStatusNone {
 				g.logger.Info("clear node state", "step", g.dict[u].data.Step.Name)
 				g.dict[u].clearState()
 				retry[u] = true
